@@ -69,7 +69,7 @@ def explore(ctx, drv, model, cases, search=False):
             continue
         if "NOMODEL" not in m:
             ctx.cov["traces_validated_against_impl"] += 1
-            if mouts != outs:
+            if mouts[:len(outs)] != outs or (len(mouts) > len(outs) and not ("CRASH" in line or "HANG" in line)):
                 ndis += 1
                 if ndis <= 3:
                     ctx.broken.append({"kind": "correspondence", "name": "C13 lambda history",
